@@ -30,13 +30,14 @@ func (*f94Box) ΛValidate(...ygot.ValidationOption) error { return nil }
 func (*f94Box) ΛEnumTypeMap() map[string][]reflect.Type  { return nil }
 func (*f94Box) ΛBelongingModule() string                 { return "m" }
 
-func f94Schema() *yang.Entry {
+// f94Schema: container box { choice <choiceName> { leaf probe; leaf probe-alt } }.
+func f94Schema(choiceName string) *yang.Entry {
 	str := func(name string) *yang.Entry {
 		return &yang.Entry{Name: name, Kind: yang.LeafEntry, Type: &yang.YangType{Kind: yang.Ystring}}
 	}
 	box := &yang.Entry{Name: "box", Kind: yang.DirectoryEntry, Dir: map[string]*yang.Entry{}}
-	choice := &yang.Entry{Name: "probe", Kind: yang.ChoiceEntry, Parent: box, Dir: map[string]*yang.Entry{}}
-	box.Dir["probe"] = choice
+	choice := &yang.Entry{Name: choiceName, Kind: yang.ChoiceEntry, Parent: box, Dir: map[string]*yang.Entry{}}
+	box.Dir[choiceName] = choice
 	for _, n := range []string{"probe", "probe-alt"} {
 		cs := &yang.Entry{Name: n, Kind: yang.CaseEntry, Parent: choice, Dir: map[string]*yang.Entry{}}
 		l := str(n)
@@ -47,18 +48,18 @@ func f94Schema() *yang.Entry {
 	return box
 }
 
-// witnessF94 unmarshals {"probe":"x"} and {"probe-alt":"x"} into the struct: the second (a node whose name
-// differs from the choice's) works, the first must work too.
+// witnessF94 unmarshals {"probe":"x"} into the struct twice: with the choice called "pick" (control: must
+// work) and with the choice called "probe" like its member (must work too).
 func witnessF94(rec *ev.Rec) {
 	rec.Witness(F94, func() (bool, string) {
 		ctl := &f94Box{}
-		if err := ytypes.Unmarshal(f94Schema(), ctl, map[string]interface{}{"probe-alt": "x"}); err != nil || ctl.ProbeAlt == nil {
-			return false, fmt.Sprintf("HARNESS-BUG: control (node named differently from its choice) does not unmarshal: %v", err)
+		if err := ytypes.Unmarshal(f94Schema("pick"), ctl, map[string]interface{}{"probe": "x"}); err != nil || ctl.Probe == nil {
+			panic(fmt.Sprintf("HARNESS-BUG: F94 control (choice named differently from its members) does not unmarshal: %v", err))
 		}
 		b := &f94Box{}
-		err := ytypes.Unmarshal(f94Schema(), b, map[string]interface{}{"probe": "x"})
+		err := ytypes.Unmarshal(f94Schema("probe"), b, map[string]interface{}{"probe": "x"})
 		if err != nil || b.Probe == nil || *b.Probe != "x" {
-			return true, fmt.Sprintf(`container box { choice probe { leaf probe; leaf probe-alt } }: Unmarshal of {"probe":"x"} fails (%v) while {"probe-alt":"x"} works`, err)
+			return true, fmt.Sprintf(`container box { choice probe { leaf probe; leaf probe-alt } }: Unmarshal of {"probe":"x"} fails (%v); with the choice renamed it works`, err)
 		}
 		return false, ""
 	})
